@@ -81,7 +81,8 @@ class Deflate(object):
 
         data.append(self._decompressobj.decompress(b"\x00\x00\xff\xff"))
         payload = b''.join(data)
-        if self.reset_decompress:
+        if self.reset_decompress or self._decompressobj.eof:
+            # A final (BFINAL) deflate block ends the stream, start a new one
             self.reset_decompressor()
         return payload
 
